@@ -120,6 +120,14 @@ def _byte8(eng, x):
 
 
 def compare(eng, t, a, b):
+    if (hasattr(a, "path_code") or hasattr(b, "path_code")) and t in (ast.Eq, ast.NotEq):
+        from vf.pysym import pathdom
+
+        try:
+            r = eng.compare(ast.Eq(), pathdom.code_of(a), pathdom.code_of(b))
+        except Unsupported:
+            r = False  # a literal outside the component alphabet never equals a component of it
+        return r if t is ast.Eq else _neg(r)
     if isinstance(a, CrcVal) and isinstance(b, CrcVal) and t in (ast.Eq, ast.NotEq):
         if len(a.items) != len(b.items):
             r = False  # different lengths never collide (part of the collision-freeness assumption)
@@ -224,7 +232,8 @@ def contains(eng, container, item):
             raise Unsupported("symbolic dict key")
         return item in container
     if isinstance(container, (list, tuple, set, frozenset)):
-        if not is_sym(item) and all(not is_sym(x) and not isinstance(x, (SBytes, SStr)) for x in container):
+        if not is_sym(item) and not isinstance(item, Native) and all(
+                not is_sym(x) and not isinstance(x, (SBytes, SStr, Native)) for x in container):
             return item in container
         rs = [eng.compare(ast.Eq(), item, x) for x in container]
         if all(isinstance(r, bool) for r in rs):
@@ -402,6 +411,8 @@ def _clamp(eng, n, lo, hi):
 
 
 def getslice(eng, obj, lo, hi):
+    if isinstance(obj, Native) and hasattr(obj, "getslice"):
+        return obj.getslice(eng, lo, hi)
     if isinstance(obj, Rope):
         from vf.pysym import ropes
 
@@ -899,6 +910,9 @@ def call_native(eng, fn, args, kw):
         return h(eng, *args, **kw)
     if isinstance(fn, type) and issubclass(fn, BaseException):
         return ModelRaise(fn.__name__, args, cls=fn)
+    slf_ = builtins.getattr(fn, "__self__", None)
+    if builtins.getattr(eng, "path_cwd", None) is not None and isinstance(slf_, type) and builtins.getattr(fn, "__name__", "") == "cwd":
+        return eng.path_cwd
     if _pure(fn) and all(_concrete(a) for a in args) and all(_concrete(v) for v in kw.values()):
         try:
             return eng.wrap_real(fn(*[_unlift(a) for a in args], **kw))
